@@ -48,6 +48,7 @@ pub fn trap_owner(kind: TrapKind, what: &str) -> &'static str {
         SubtaskCancelResolved | SubtaskDropUnresolved => "C21",
         TaskReturnTwice | ContextMisuse | Other => "C22",
         IntraInstanceNonNumeric => "harness",
+        Runaway => "inconclusive",
     }
 }
 
@@ -70,7 +71,23 @@ pub fn panic_owner(file: &str) -> &'static str {
 fn normalize(msg: &str) -> String {
     let mut out = String::new();
     let mut last_hash = false;
-    for c in msg.chars().take(90) {
+    // addresses and other numbers never enter a signature
+    let mut cleaned = String::new();
+    let b: Vec<char> = msg.chars().collect();
+    let mut i = 0;
+    while i < b.len() {
+        if b[i] == '0' && i + 1 < b.len() && b[i + 1] == 'x' {
+            i += 2;
+            while i < b.len() && b[i].is_ascii_hexdigit() {
+                i += 1;
+            }
+            cleaned.push('0');
+        } else {
+            cleaned.push(b[i]);
+            i += 1;
+        }
+    }
+    for c in cleaned.chars().take(90) {
         if c.is_ascii_digit() {
             if !last_hash {
                 out.push('#');
@@ -274,7 +291,7 @@ pub fn check(host: &Host, end: &RunEnd, cx: &Ctx) -> Vec<Finding> {
             let kind_of = |s: &str| s.split(':').next().unwrap_or("").to_string();
             out.push(f(
                 prop,
-                format!("{}:{}:reported-{}-host-decided-{}", o.kind, how, kind_of(what), kind_of(&expected)),
+                if kind_of(what) == kind_of(&expected) { format!("{}:{}:reported-count-or-value-differs-from-the-host's", o.kind, how) } else { format!("{}:{}:reported-{}-host-decided-{}", o.kind, how, kind_of(what), kind_of(&expected)) },
                 format!("slot {} on handle {} ({how}): runtime reported `{what}`, the host decided `{expected}` (code {:?} via {:?})", o.slot, o.handle, rec.and_then(|r| r.code), via),
             ));
             if kind_of(what) != kind_of(&expected) && via == Some(crate::host::Via::Event) {
